@@ -74,6 +74,20 @@ func (e *E) Pick(q, t int) int {
 	return q
 }
 
+// PickN is Pick for generated-case counts: the thorough count is multiplied by
+// VERIF_THOROUGH_SCALE (default 8) so the depth of the thorough tier can be
+// tuned without touching the checks.
+func (e *E) PickN(q, t int) int {
+	if !e.Thorough() {
+		return q
+	}
+	scale := 8
+	if v, err := strconv.Atoi(os.Getenv("VERIF_THOROUGH_SCALE")); err == nil && v > 0 {
+		scale = v
+	}
+	return t * scale
+}
+
 // RapidSeed maps VERIF_SEED to a non-zero rapid seed, varied per test name and
 // shard.
 func (e *E) RapidSeed(name string) uint64 {
